@@ -234,6 +234,13 @@ impl C08 {
                 }
             }
         }
+        // what clients can see (point queries and listings, expired grants hidden) is the stored state
+        h.out.oracle_checks += 1;
+        if let Some(d) = p.queries_disagree(&post) {
+            h.violate("C08/query/views-differ-from-stored-grants", d);
+            return false;
+        }
+        h.out.count("query_views_compared_with_stored_grants");
         h.out.state(&(post.raw.len(), post.raw.values().filter(|a| a.exp != Exp::Never).count(), post.raw.values().map(|a| a.coins.len()).sum::<usize>()));
         *pre = post;
         true
@@ -298,6 +305,7 @@ impl Monitor for C08 {
     }
     fn mandatory(&self) -> Vec<&'static str> {
         vec![
+            "query_views_compared_with_stored_grants",
             "subkey_spends_ok",
             "multi_send_calls_ok",
             "spends_of_exactly_the_remaining_allowance",
